@@ -97,12 +97,22 @@ def run(ctx):
             violations.append(Violation("reading scaled data raised %s: %s (%s)" % (type(ex).__name__, str(ex)[:120], scenario), info))
             continue
         # oracle
-        if effective is None:
-            exp = [Fraction(v) for v in vals]
-        elif daq:
-            exp = [gs.eval_graph(effective, None, [scal[j][r] for j in range(k)]) for r in range(n)]
-        else:
-            exp = [gs.eval_graph(effective, v) for v in vals]
+        int_range = None
+        if daq:
+            int_range = (-2 ** 15, 2 ** 15 - 1)
+        elif gs.NUMERIC[ty][1][0] in "iu":
+            w = 8 * int(gs.NUMERIC[ty][1][1])
+            int_range = (0, 2 ** w - 1) if gs.NUMERIC[ty][1][0] == "u" else (-2 ** (w - 1), 2 ** (w - 1) - 1)
+        try:
+            if effective is None:
+                exp = [Fraction(v) for v in vals]
+            elif daq:
+                exp = [gs.eval_graph(effective, None, [scal[j][r] for j in range(k)], int_range) for r in range(n)]
+            else:
+                exp = [gs.eval_graph(effective, v, None, int_range) for v in vals]
+        except gs.Wraps:
+            stats["integer_wraps_skipped"] = stats.get("integer_wraps_skipped", 0) + 1
+            continue
         if len(got) != n:
             violations.append(Violation("scaled channel has %d values, raw channel %d" % (len(got), n), info))
             continue
